@@ -271,7 +271,7 @@ def run(ctx):
     from openfermion.hamiltonians import plane_wave_hamiltonian, plane_wave_external_potential, dual_basis_external_potential
     for dim, length in ([(1, 3), (1, 4), (2, 2)] + ([] if ctx.quick else [(1, 5), (2, (2, 3)), (2, 3)])):
         grid = of.Grid(dim, length, rng.choice([1.0, 1.5, 2.0]))
-        geometry = [(rng.choice(['H', 'He']), tuple(round(rng.uniform(-0.4, 0.4), 3) for _ in range(dim))), (rng.choice(['Li', 'H', 'Be']), tuple(round(rng.uniform(-0.4, 0.4), 3) for _ in range(dim)))]
+        geometry = [(rng.choice(['H', 'He']), tuple(round(rng.uniform(-0.4, 0.4), 3) for _ in range(dim))), (rng.choice(['Li', 'Be']), tuple(round(rng.uniform(-0.4, 0.4), 3) for _ in range(dim)))]
         for spinless in (True, False):
             nq = grid.num_points * (1 if spinless else 2)
             if nq > N(8, 12): continue
@@ -281,6 +281,11 @@ def run(ctx):
                 add('external_potential_fourier_pairing', '(fermi_close %s %s %s)' % (EPS2, coq_fop(of.normal_ordered(of.fourier_transform(pwx, grid, spinless))), coq_fop(of.normal_ordered(dux))),
                     rp, key=(dim, repr(length), repr(geometry), spinless, npd, rc))
                 hp = plane_wave_hamiltonian(grid, geometry, spinless, True, False, None, npd, rc); hd = plane_wave_hamiltonian(grid, geometry, spinless, False, False, None, npd, rc)
+                if not npd:
+                    from openfermion.hamiltonians import jordan_wigner_dual_basis_hamiltonian
+                    jq = jordan_wigner_dual_basis_hamiltonian(grid, geometry, spinless, False)
+                    add('jw_dual_basis_hamiltonian', '(fermi_pauli_close %s %s %s)' % (EPS2, coq_fop(hd), coq_qop(jq)), dict(rp, call='jordan_wigner_dual_basis_hamiltonian vs jordan_wigner(plane_wave_hamiltonian(plane_wave=False))'),
+                        key=('jq', dim, repr(length), repr(geometry), spinless))
                 add('plane_wave_hamiltonian_fourier_pairing', '(fermi_close %s %s %s && fermi_close %s %s (hc_map %s) && fcomm_zero %s %s)' %
                     (EPS2, coq_fop(of.normal_ordered(of.fourier_transform(hp, grid, spinless))), coq_fop(of.normal_ordered(hd)), EPS2, coq_fop(hd), coq_fop(hd), coq_fop(hd), coq_fop_terms(number_op(nq))),
                     rp, key=('h', dim, repr(length), repr(geometry), spinless, npd, rc))
